@@ -137,3 +137,39 @@ def run(prog, rep):
     else:
         rep.violation("C04.R5", "crate", "forbid-unsafe", "src/lib.rs", "unsafe_code is not forbidden at crate level: %s"
                       % prog.facts.crate_lints)
+
+
+# functions that wrap() / fill() run through: a panic or hang in any of them is a failure of every property that is
+# stated "for all inputs" of wrap / fill
+WRAP_PATH_PREFIXES = ("crate::wrap::", "crate::fill::fill", "crate::core::", "crate::word_separators::", "crate::word_splitters::",
+                      "crate::wrap_algorithms::", "crate::line_ending::LineEnding", "crate::<core::", "crate::options::",
+                      "crate::<options::", "crate::<word_", "crate::<wrap_")
+_LEMMA_ACTIVE = [False]
+
+
+def _lemma_wrappath(prog):
+    from ..engine import Report
+    if _LEMMA_ACTIVE[0]:
+        return True          # evaluated from inside C04 itself (table lemmas): not circular evidence
+    _LEMMA_ACTIVE[0] = True
+    try:
+        rep = Report("C04")
+        rep.set_config(prog.config)
+        run(prog, rep)
+    finally:
+        _LEMMA_ACTIVE[0] = False
+    known = set()
+    try:
+        from ..runner import load_known
+        known = {k for p_, k, _t in load_known() if p_ == "C04"}
+    except Exception:
+        pass
+    for v in rep.violations:
+        fn = v.key.split("|")[1] if "|" in v.key else ""
+        if v.key not in known and v.rule in ("C04.R1", "C04.R2", "C04.R3") and fn.startswith(WRAP_PATH_PREFIXES) \
+                and "relies on lemma" not in v.message:
+            return False
+    return True
+
+
+lemmas.register("C04.WRAPPATH", _lemma_wrappath)
